@@ -347,6 +347,21 @@ pub fn run(tape: &mut Tape, props: Props, thorough: bool, trace_on: bool) -> Out
         let _ = c.s[i].node.iface.routes_mut().add_default_ipv6_route(Ipv6Address::from(peer_ll_addr));
     }
     let r = body(&mut c, thorough);
+    // under C09 (datagram sockets, here on the 6LoWPAN medium) only the verdicts about what the sockets sent and were
+    // handed count; everything about the adaptation layer's own format belongs to C20
+    let r = match r {
+        Err(mut e) if e.prop == "C20" && !c.props.has("C20") => {
+            const DATAGRAM_VERDICTS: [&str; 5] = ["C20.compress/udp-on-wire-differs-from-send", "C20.compress/echo-on-wire-differs-from-send", "C20.deliver/udp-differs-from-what-was-sent", "C20.deliver/address-family", "C20.lossless/udp-send-never-reached-the-wire"];
+            if c.props.has("C09") && DATAGRAM_VERDICTS.iter().any(|w| e.sig.starts_with(w)) {
+                e.prop = "C09";
+                e.sig = e.sig.replacen("C20.", "C09.6lowpan-", 1);
+                Err(e)
+            } else {
+                Ok(())
+            }
+        }
+        other => other,
+    };
     let nontrivial = c.stats.get("6lo.fragmented-datagrams") >= 1 && c.stats.get("6lo.app-deliveries") >= 2;
     c.stats.add("sim.seconds", (c.now / 1_000_000) as u64);
     Outcome { viol: r.err(), stats: c.stats, hash: c.hash, nontrivial, trace: c.trace, sim_us: c.now, events: c.events, cfg_desc: desc }
@@ -360,7 +375,7 @@ fn v(sig: impl Into<String>, oracle: &'static str, detail: String) -> Violation 
 fn on_tx(c: &mut C, i: usize, raw: &[u8]) -> Result<Option<(usize, usize)>, Violation> {
     c.hash.bytes(raw);
     c.stats.inc("frames.tx");
-    let on = c.props.has("C20");
+    let on = (c.props.has("C20") || c.props.has("C09"));
     if raw.len() > MAX_FRAME && on {
         return Err(v("C20.frame/exceeds-802.15.4-frame", "frame-size", format!("node {} emitted a frame of {} octets; an IEEE 802.15.4 frame carries at most {} (127 minus FCS)", c.s[i].node.name, raw.len(), MAX_FRAME)));
     }
@@ -469,7 +484,7 @@ fn finish_if_complete(c: &mut C, i: usize) -> Result<(), Violation> {
 /// A whole IPv6 datagram left node i: it must be well-formed and, if it is application traffic,
 /// be exactly what the application asked for.
 fn complete(c: &mut C, i: usize, dg: usize, ip6: Vec<u8>) -> Result<(), Violation> {
-    let on = c.props.has("C20");
+    let on = (c.props.has("C20") || c.props.has("C09"));
     let name = c.s[i].node.name;
     let pkt = match decode_ip(&ip6, &Verify::all(), true) {
         Ok(p) => p,
@@ -646,7 +661,7 @@ fn poll_side(c: &mut C, i: usize) -> Result<(), Violation> {
 /// Receiver-side oracle: whatever the sockets deliver is a datagram the peer sent, completely
 /// delivered by the link, with identical content and metadata.
 fn drain(c: &mut C, i: usize) -> Result<(), Violation> {
-    let on = c.props.has("C20");
+    let on = (c.props.has("C20") || c.props.has("C09"));
     let name = c.s[i].node.name;
     for k in 0..c.s[i].udp.len() {
         let (h, port, _) = c.s[i].udp[k];
@@ -903,6 +918,15 @@ fn app_op(c: &mut C) -> Result<(), Violation> {
                     [0xff, 0x05, 0, 0, 0, 0, 0, 0, 0, 0, 0, 0, 0, 1, 0, 3],
                     [0xff, 0x0e, 0, 0, 0, 0, 0, 0, 0, 0, 0, 0x12, 0x34, 0x56, 0x78, 0x9a],
                     [0xff, 0x12, 0x34, 0x56, 0x78, 0x9a, 0xbc, 0xde, 0xf0, 1, 2, 3, 4, 5, 6, 7],
+                    // the boundaries between the four IPHC multicast forms (8, 32, 48 and 128 bits inline)
+                    [0xff, 0x05, 0, 0, 0, 0, 0, 0, 0, 0, 0, 0, 0, 0, 0, 0xfb],
+                    [0xff, 0x0e, 0, 0, 0, 0, 0, 0, 0, 0, 0, 0, 0, 0, 0, 1],
+                    [0xff, 0x02, 0, 0, 0, 0, 0, 0, 0, 0, 0, 0, 0, 0x80, 0, 1],
+                    [0xff, 0x02, 0, 0, 0, 0, 0, 0, 0, 0, 0, 0, 0x80, 0, 0, 1],
+                    [0xff, 0x3e, 0, 0, 0, 0, 0, 0, 0, 0, 0, 0, 0x43, 0x21, 0x12, 0x34],
+                    [0xff, 0x02, 0, 0, 0, 0, 0, 0, 0, 0, 0, 0x01, 0, 0, 0, 1],
+                    [0xff, 0x02, 0, 0, 0, 0, 0, 0, 0, 0, 0x01, 0, 0, 0, 0, 1],
+                    [0xff, 0x02, 0, 0, 0, 0, 0, 0, 0, 0, 0, 0, 0, 0, 0x01, 0xfb],
                 ]);
                 if !c.s[i].groups.contains(&g) {
                     let now = c.now;
@@ -1053,7 +1077,7 @@ fn body(c: &mut C, thorough: bool) -> Result<(), Violation> {
             }
             c.now = next_time(c, 1_000_000)?;
         }
-        if c.props.has("C20") {
+        if (c.props.has("C20") || c.props.has("C09")) {
             for i in 0..2 {
                 let ports: Vec<u16> = c.s[1 - i].udp.iter().map(|u| u.1).collect();
                 for d in &c.s[i].wire[marks[i]..] {
@@ -1077,7 +1101,7 @@ fn body(c: &mut C, thorough: bool) -> Result<(), Violation> {
         1 => "6lo.mode.reorder-dup",
         _ => "6lo.mode.reorder-dup-drop",
     });
-    if !c.props.has("C20") {
+    if !(c.props.has("C20") || c.props.has("C09")) {
         return Ok(());
     }
     // ---- final verdicts
